@@ -7,7 +7,7 @@
 (* printed as <<"MISMATCH", json>> and classified against the open known   *)
 (* findings.  TraceAccepted requires that every line was consumed.         *)
 (***************************************************************************)
-EXTENDS Order, KnownFindings, Json, SequencesExt, FiniteSetsExt, Dpkg, MavenCV
+EXTENDS Order, KnownFindings, Json, SequencesExt, FiniteSetsExt, Dpkg, MavenCV, SemVer
 
 CONSTANTS TraceFile,     \* path of the NDJSON trace
           Prop,          \* property id being judged, e.g. "C01"
@@ -59,16 +59,16 @@ MatrixC01(ev) ==
 
 (* Reference orders (C08-C14): the observed sign of every in-scope pair is the  *)
 (* sign the reference operator computes on the same two texts.                *)
-RefKey(prop, cs) == CASE prop = "C10" -> DKey(cs) [] prop = "C11" -> RKey(cs) [] prop = "C12" -> MvKey(cs)
-RefScope(prop, cs) == CASE prop = "C10" -> DInScope(cs) [] prop = "C11" -> RInScope(cs) [] prop = "C12" -> MvInScope(cs)
-RefCmpKey(prop, x, y) == CASE prop = "C10" -> DCmpKey(x, y) [] prop = "C11" -> RCmpKey(x, y) [] prop = "C12" -> MvCmpKey(x, y)
+RefKey(prop, eco, cs) == CASE prop = "C10" -> DKey(cs) [] prop = "C08" -> SvParse(cs) [] prop = "C11" -> RKey(cs) [] prop = "C12" -> MvKey(cs)
+RefScope(prop, eco, cs) == CASE prop = "C10" -> DInScope(cs) [] prop = "C08" -> SvInScope(eco, cs) [] prop = "C11" -> RInScope(cs) [] prop = "C12" -> MvInScope(cs)
+RefCmpKey(prop, x, y) == CASE prop = "C10" -> DCmpKey(x, y) [] prop = "C08" -> SvCmpKey(x, y) [] prop = "C11" -> RCmpKey(x, y) [] prop = "C12" -> MvCmpKey(x, y)
 
 MatrixRef(ev) ==
   LET n   == ev.n
       M   == ev.m
       cs  == TLCEval([i \in 1..n |-> S2C(ev.texts[i])])
-      I   == {i \in 1..n : RefScope(Prop, cs[i])}
-      key == TLCEval([i \in I |-> RefKey(Prop, cs[i])])
+      I   == {i \in 1..n : RefScope(Prop, ev.eco, cs[i])}
+      key == TLCEval([i \in I |-> RefKey(Prop, ev.eco, cs[i])])
       W(p) == RefCmpKey(Prop, key[p[1]], key[p[2]])
       \* 2 = the reference leaves the pair unclaimed (only C12 has such pairs)
       unclaimed == IF Prop = "C12" THEN Cardinality({p \in I \X I : W(p) = 2}) ELSE 0
@@ -84,16 +84,24 @@ MatrixRef(ev) ==
 AuditCmpKey(prop, x, y) == IF prop = "C12" THEN MvListCmp(x.k7, y.k7, 1) ELSE RefCmpKey(prop, x, y)
 AuditRef(ev) ==
   LET cs  == TLCEval([i \in 1..Len(ev.texts) |-> S2C(ev.texts[i])])
-      key == TLCEval([i \in 1..Len(ev.texts) |-> RefKey(Prop, cs[i])])
+      key == TLCEval([i \in 1..Len(ev.texts) |-> RefKey(Prop, ev.eco, cs[i])])
       bad == {q \in 1..Len(ev.pairs) :
                 AuditCmpKey(Prop, key[ev.pairs[q][1]], key[ev.pairs[q][2]]) # ev.pairs[q][3]}
-      oos == {i \in 1..Len(ev.texts) : ~RefScope(Prop, cs[i])}
+      oos == {i \in 1..Len(ev.texts) : ~RefScope(Prop, ev.eco, cs[i])}
   IN {[prop |-> Prop, why |-> "audit", a |-> ev.texts[ev.pairs[q][1]], b |-> ev.texts[ev.pairs[q][2]],
        ref |-> ev.pairs[q][3], spec |-> AuditCmpKey(Prop, key[ev.pairs[q][1]], key[ev.pairs[q][2]]), known |-> ""] : q \in bad}
      \cup {[prop |-> Prop, why |-> "audit-scope", a |-> ev.texts[i], b |-> "", ref |-> 0, spec |-> 0, known |-> ""] : i \in oos}
 
+(* C08, strict semver only: whatever is accepted is valid per the SemVer 2.0.0   *)
+(* grammar ("rejects what SemVer rejects"; the converse is not claimed).         *)
+AcceptC08(ev) ==
+  IF ev.eco # "semver" THEN {}
+  ELSE {[prop |-> "C08", eco |-> ev.eco, why |-> "accepted-invalid", a |-> ev.texts[i], b |-> "", got |-> 1, want |-> 0, known |-> ""]
+          : i \in {i \in 1..ev.n : ~SvStrictValid(S2C(ev.texts[i]))}}
+
 Judge(ev) ==
   CASE ev.k = "matrix" /\ Prop = "C01" -> MatrixC01(ev)
+    [] ev.k = "matrix" /\ Prop = "C08" -> MatrixRef(ev) \cup AcceptC08(ev)
     [] ev.k = "audit" -> AuditRef(ev)
     [] ev.k = "matrix" -> MatrixRef(ev)
     [] OTHER -> {[prop |-> Prop, why |-> "unjudged event kind", k |-> ev.k, known |-> ""]}
